@@ -77,6 +77,8 @@ def run(ctx, broken):
     kinds = ["add", "sub", "neg", "selid", "selpt", "add"]
     cs = [small_case(rng, kinds[i % len(kinds)]) for i in range(n_small)]
     cs += [mul_case(rng) for _ in range(n_mul)]
+    from props.c05 import cancel_cases
+    cs += cancel_cases(rng, ("var",), 1 if ctx.tier == "quick" else 8)
     r.run(cs)
     st = r.report(broken)
     st["rule"] = ("pairs of subgroup points {identity, P/-P, P/P, P/identity, random}, Z-scaled extended inputs; add/sub/neg/"
